@@ -107,7 +107,7 @@ class C13(Prop):
         out.append("/-- C: first_cmd_in_buf `if (ip->text_end > MAX_TEXT - N)` -/\ndef cutMargin : Nat := %d" % v)
         v = need("ascii space", r"text_space = MAX_TEXT - ip->text_end - (\d+);", count=1)
         out.append("/-- C: get_user_data PORT_ASCII/BINARY `text_space = MAX_TEXT - ip->text_end - N` -/\ndef asciiReserve : Nat := %d" % v)
-        need("console guard", r"if \(len <= 0 \|\| ip->text_end \+ len >= (MAX_TEXT)\)", str, count=1)
+        need("console guard", r"if \(ip->text_end \+ len >= (MAX_TEXT)(?: && !cmd_in_buf \(ip\))?\)", str, count=2)
         cfg = open(os.path.join(bdir, "config.h"), errors="replace").read()
         pk = re.search(r'#define PACKAGE "([^"]*)"', cfg)
         ve = re.search(r'#define VERSION "([^"]*)"', cfg)
@@ -291,6 +291,8 @@ class C13(Prop):
         add("console-too-long", "console", [b"c" * 2048, b"ok\n", b"c" * 2047 + b"\n", b"ok2\n"], console=True)
         add("console-partial-lines", "console", [b"lo", b"ok\nsa", b"y\r\n\n\0x\n"], console=True, inter="each")
         add("console-full-partial", "console", [b"a\n" + b"p" * 2045, b"\n", b"x\n"], console=True, inter="each")
+        add("console-stall-2047", "console", [b"p" * 2047, b"\n", b"look\n", b"q" * 2047, b"r" * 2048, b"say hi\n"], console=True, inter="each")
+        add("console-nofit-with-command-pending", "console", [b"a\n" + b"p" * 2040, b"zzzzzzzz\n", b"x\n"], console=True, inter="end")
         # binary
         add("binary-verbatim", "binary", [bytes(range(256)), b"\xff\xfa\x18\xff\xf0\r\n\0", b"z" * 3000])
         # single character mode (memory safety only)
